@@ -182,7 +182,7 @@ def signal_sets(nvars, tier):
             for vx in itertools.product(F.V2, repeat=len(tx)):
                 for vy in itertools.product(F.V2, repeat=len(ty)):
                     sets.append({'x': tuple(zip(tx, vx)), 'y': tuple(zip(ty, vy))})
-            out += sets[37::128] if quick else sets[::7]
+            out += sets[37::128] if quick else sets[5::16]
     return out
 
 
